@@ -1,9 +1,9 @@
 SPECIFICATION Spec
 CONSTANTS
   Accounts <- AllAccounts
-  Thorough = FALSE
-VIEW RoleView
+  Thorough = TRUE
+VIEW StView
 INVARIANTS HistoryOK ModuleAccountEmpty ThresholdInv
-PROPERTIES SpecSatisfiesLenses StepwiseIsRun RoleLifecycle
+PROPERTIES SpecSatisfiesLenses StepwiseIsRun 
 ACTION_CONSTRAINT EmitEdge
 CHECK_DEADLOCK FALSE
